@@ -75,7 +75,11 @@ Proof.
     assert (Hd' : 1 <= d) by (rewrite <- shape_length, HS, repeat_length in Hd; lia).
     destruct d as [|d']; [lia|]. cbn [repeat hd]. rewrite log2_exact_pow. destruct q as [|q']; [lia|].
     fold rq. destruct rq as [[[a b] c] e]. unfold r_imin, r_imax in E1, E2. cbn [fst snd] in E1, E2.
-    rewrite E1. cbn [rbind]. rewrite E2. cbn [rbind]. reflexivity.
+    rewrite E1. cbn [rbind]. rewrite E2. cbn [rbind]. cbv zeta.
+    assert (LEY : (get OR Y jmin <= get OR Y jmax)%R).
+    { unfold r_ymin, r_ymax, r_imin, r_imax in *. cbn [fst snd] in *. rewrite <- (V _ _ I1 E1), <- (V _ _ I2 E2), <- V1, <- V2. exact LE. }
+    change (oltb OR (get OR Y jmax) (get OR Y jmin)) with (Rltb (get OR Y jmax) (get OR Y jmin)).
+    destruct (Rltb (get OR Y jmax) (get OR Y jmin)) eqn:EL; [apply Rltb_true in EL; exfalso; apply (Rlt_irrefl (get OR Y jmin)); eapply Rle_lt_trans; eauto|reflexivity].
   - split; [exact E1|]. split; [exact E2|]. split; [exact J1|]. split; [exact J2|].
     rewrite <- (V _ _ I1 E1), <- (V _ _ I2 E2), <- V1, <- V2. auto.
 Qed.
@@ -101,6 +105,21 @@ Proof.
   destruct (tt_qtt_tt q idx Hq F) as (b & _ & Lb & Fb & Eb).
   assert (Ib : inb (shape (to_qtt Y)) b) by (rewrite B; apply inb_repeat; rewrite Lb, L; auto).
   specialize (X b Ib). rewrite (V b idx Ib Eb) in X. rewrite W1, W2. exact X.
+Qed.
+
+(* ordering and values for EVERY quantisation (no contract on to_qtt: coarse e, rank caps): whenever optima_qtt returns, the
+   reported values are the entries of Y at the reported indices and the reported minimum does not exceed the reported maximum *)
+Theorem optima_qtt_ordered co cs (Y : list (core R)) k res :
+  optima_qtt OR argsort orth pow2frac droot to_qtt co cs Y k = Ok res ->
+  r_ymin res = get OR Y (r_imin res) /\ r_ymax res = get OR Y (r_imax res) /\ (r_ymin res <= r_ymax res)%R.
+Proof.
+  unfold optima_qtt. destruct (negb _); [discriminate|]. destruct (log2_exact _) as [[|q]|]; try discriminate.
+  destruct (optima_tt OR argsort orth pow2frac droot co cs (to_qtt Y) k) as [[[a b] c] d].
+  destruct (ind_qtt_to_tt1 (S q) a) as [ja|]; cbn [rbind]; [|discriminate].
+  destruct (ind_qtt_to_tt1 (S q) c) as [jc|]; cbn [rbind]; [|discriminate]. cbv zeta.
+  change (oltb OR (get OR Y jc) (get OR Y ja)) with (Rltb (get OR Y jc) (get OR Y ja)).
+  destruct (Rltb (get OR Y jc) (get OR Y ja)) eqn:E; intros H; inversion H; subst; unfold r_ymin, r_ymax, r_imin, r_imax; cbn [fst snd];
+    [apply Rltb_true in E|apply Rltb_false in E]; repeat split; lra.
 Qed.
 
 (* rejected shapes: unequal mode sizes, or a mode size that is not a power of two, or mode size 1 *)
